@@ -1,0 +1,17 @@
+//go:build verif
+
+package adapters
+
+// Machine-checked contracts for /verif (read as text by the VC generator; no code).
+// The adapters present a vecfc vector clock through the dagidx interfaces without changing what it reports.
+//
+//@ func (*BranchSeq).Seq
+//@   requires b != nil
+//@   ensures  result == b.BranchSeq.Seq
+//@ func (*BranchSeq).MinSeq
+//@   requires b != nil
+//@   ensures  result == b.BranchSeq.MinSeq
+//@ func (VectorSeqToDagIndexSeq).Get
+//@   requires b.HighestBeforeSeq != nil && hbwf(deref(b.HighestBeforeSeq))
+//@   ensures  typeis(result, "*BranchSeq") && unbox(result, "*BranchSeq") != nil
+//@   ensures  unbox(result, "*BranchSeq").BranchSeq.Seq == hbSeq(deref(b.HighestBeforeSeq), i) && unbox(result, "*BranchSeq").BranchSeq.MinSeq == hbMin(deref(b.HighestBeforeSeq), i)
